@@ -63,10 +63,18 @@ pub fn run_world_t(plan: &Rc<Plan>) -> Result<History, String> {
         .with_cli(opts);
     let ended = Rc::new(std::cell::Cell::new(false));
     let ended2 = Rc::clone(&ended);
-    let root = Box::pin(async move {
+    // Half of the runs poll the whole pipeline inside a span of the caller's own (a user who
+    // `#[instrument]`s the test main): the scenario span is then not the root of the scope.
+    let outer_span = plan.seed % 2 == 1;
+    let fut = async move {
         let _wr = cuc.filter_run((), |_, _, _| true).await;
         ended2.set(true);
-    });
+    };
+    let root: std::pin::Pin<Box<dyn std::future::Future<Output = ()>>> = if outer_span {
+        Box::pin(tracing::Instrument::instrument(fut, tracing::info_span!("suite", run = 1)))
+    } else {
+        Box::pin(fut)
+    };
     let mut quiescent = Vec::new();
     let outcome = {
         let events = Rc::clone(&events);
